@@ -13,7 +13,7 @@ pub fn run(out: &mut Out, thorough: bool, seed: u64) {
     let mut n_frag = 0u64;
     for ctx in CtxK::ALL {
         let atoms = ast::default_atoms(ctx, !thorough);
-        let frags = ast::enumerate(ctx, &atoms, if thorough { 3 } else { 2 }, if thorough { 120 } else { 40 }, &mut rng);
+        let frags = ast::enumerate(ctx, &atoms, if thorough { 4 } else { 3 }, if thorough { 100 } else { 30 }, &mut rng);
         for t in frags.iter().filter(|t| t.base == Base::B) {
             n_frag += 1;
             t.node.count_frags(out);
